@@ -240,6 +240,24 @@ def blackbox_part(ck, quick):
     if ("error" in err_dir) != (rc_dir != 0) or ("error" in err_file) != (rc_file != 0):
         ck.violation("C18:blackbox:exit-status:error-reported-but-exit-0:%s" % ("directory-mode" if ("error" in err_dir) != (rc_dir != 0) else "single-file"),
                      dict(directory_exit=rc_dir, directory_stderr=err_dir[-300:], single_file_exit=rc_file, single_file_stderr=err_file[-300:]))
+    # the same for an error in the FIRST file a worker scans (later good files must not wipe it): scan order discovered with -p 1, then that file gets the failing content
+    od = os.path.join(WORK, "orderdir"); os.makedirs(od)
+    for i in range(9): open(os.path.join(od, "g%d" % i), "wb").write(b"plain %d" % i)
+    r3 = os.path.join(WORK, "deep.yar")
+    open(r3, "w").write('rule every { condition: true } rule deep { strings: $t = "TRIGGER" condition: $t and (' + "1 + (" * 12 + "1" + ")" * 12 + ' > 0) }')
+    _, order_out, _ = run([bins["yara"], "-p", "1", "-i", "every", r3, od]); n += 1
+    order = [l.split(" ", 1)[1] for l in order_out.split("\n") if l.startswith("every ")]
+    if len(order) == 9:
+        for pos in (0, 4):
+            for f_ in order: open(f_, "wb").write(b"plain")
+            open(order[pos], "wb").write(b"xx TRIGGER xx")
+            rc_f, _, err_f = run([bins["yara"], "-k", "8", r3, order[pos]]); n += 1
+            for p_ in (1, 2):
+                rc_d, _, err_d = run([bins["yara"], "-k", "8", "-p", str(p_), r3, od]); n += 1
+                if (rc_f != 0) != (rc_d != 0) or ("error" in err_f) != ("error" in err_d):
+                    ck.violation("C18:blackbox:exit-status:error-in-an-early-file-lost", dict(position_in_scan_order=pos, threads=p_, single_file_exit=rc_f, directory_exit=rc_d, directory_stderr=err_d[-300:], single_file_stderr=err_f[-300:]))
+    else:
+        ck.violation("C18:harness:scan-order-probe-failed", dict(output=order_out[-500:]))
     # -l N : the limit counter is process-global by design ("abort scanning after matching a number of rules"), so the per-file equivalence cannot hold for a directory
     lim = os.path.join(WORK, "limdir"); os.makedirs(lim)
     for i in range(3): open(os.path.join(lim, "m%d" % i), "wb").write(b"--abcd--")
